@@ -22,7 +22,7 @@ PROPERTY = 'C09'
 LEVEL = 'model_checking'
 RULE = ('program = set of 1-3 real Timer components (interval from {0, 1/2, 1, 5/2}, persistent or not, float or absolute datetime '
         'deadline, created at virtual time 0 or 1/2, optionally reset() or unregister()ed at a grid time) x background (event chain, '
-        'generator task); every environment script with <= k deviations (idle wait late / spuriously early, loop iteration costing 1/8) '
+        'generator task) x (the timer event's handler calls event.stop(), for persistent timers); every environment script with <= k deviations (idle wait late / spuriously early, loop iteration costing 1/8) '
         'is executed under the real run(); non-trivial = execution with at least one timer firing and one idle wait; '
         'distinct = distinct (program, environment script)')
 ASSUMPTIONS = [
@@ -156,6 +156,8 @@ class World:
 
         def on_tick(self, event, k):
             w.log.append(('disp', k, w.rel(), w.iter))
+            if program.get('stop'):
+                event.stop()          # the consumer claims the tick: no further handler sees this firing
         self.sink.addHandler(handler('ttick')(on_tick))
         def on_act(self, event, acts):
             # environment choice: the handlers dispatched before this one were busy - the clock has moved on since the timers
@@ -415,6 +417,11 @@ def programs(tier):
     for s in singles:
         for chain, task in ((False, False), (True, False), (False, True)):
             yield {'timers': [s], 'chain': chain, 'task': task}, k1
+    # the handler of the timer's event claims it (event.stop()): a persistent timer fires the same event object again, and
+    # every firing still reaches that handler
+    for s in singles:
+        if s['persist']:
+            yield {'timers': [s], 'chain': False, 'task': False, 'stop': True}, k1
     # the same budget protocol through each poller's blocking call (seconds for select/epoll, milliseconds for poll)
     for mech in ('Select', 'Poll', 'EPoll'):
         for s in singles:
